@@ -347,3 +347,46 @@ Qed.
 
 Lemma c_init_quiescent : forall eo, quiescent _ _ _ (sparse eo) (to_cst c_init).
 Proof. intro eo. right. reflexivity. Qed.
+
+(* ---------------------------------------------------------------- the same facts for the reader as configured by the source
+   (Gen/H2Src.v switches; the hypotheses are discharged by eq_refl in Props, so they fail to compile when the
+   source no longer has the repaired shape) *)
+Section Src.
+  Hypothesis Hadv : h2_cont_advance = true.
+  Hypothesis Hdr : h2_stream_err_drains = true.
+  Hypothesis Hcont : h2_dispatch_continues = true.
+
+  Theorem read_frame_src_total : forall st data, rgood (read_frame st data).
+  Proof. intros. unfold read_frame. rewrite Hadv. apply read_frame_total. Qed.
+
+  Theorem read_frame_src_stable : forall st b e,
+    read_frame st b <> RAgain -> read_frame st (b ++ e) = read_frame st b.
+  Proof. intros st b e. unfold read_frame. rewrite Hadv. apply read_frame_stable. Qed.
+
+  Theorem read_frame_src_again : forall st b e, read_frame st (b ++ e) = RAgain -> read_frame st b = RAgain.
+  Proof. intros st b e. unfold read_frame. rewrite Hadv. apply read_frame_again_antimonotone. Qed.
+
+  Theorem read_frame_src_consumes : forall st b,
+    match read_frame st b with
+    | ROk _ n _ | RStream n _ => 0 < n <= len b
+    | _ => True
+    end.
+  Proof. intros st b. unfold read_frame. rewrite Hadv, Hdr. apply read_frame_consumes. Qed.
+
+  Theorem feed_src_segmentation : forall chunks,
+    obs _ _ _ (to_cst (fold_left feed chunks c_init)) = obs _ _ _ (to_cst (feed c_init (concat chunks))).
+  Proof.
+    intro chunks. unfold feed. rewrite Hadv, Hdr, Hcont.
+    apply h2_segmentation_independent. apply c_init_quiescent.
+  Qed.
+
+  (* an incomplete frame consumes nothing: when the reader asks for more, a read event leaves events,
+     reader state and liveness untouched and only buffers the bytes *)
+  Theorem feed_src_incomplete : forall s chunk, c_dead s = false ->
+    read_frame (c_fs s) (c_buf s ++ chunk) = RAgain ->
+    feed s chunk = mkC (c_buf s ++ chunk) (c_fs s) (c_out s) false.
+  Proof.
+    intros s chunk Hd Ha. unfold feed, feed_gen. rewrite Hd. cbn [drain_loop_gen c_dead c_fs c_buf].
+    unfold read_frame in Ha. rewrite Ha. reflexivity.
+  Qed.
+End Src.
